@@ -418,6 +418,8 @@ func (a *Account) SetSuicide(suicided bool) {
 func (a *Account) SetCodeHash(codeHash common.Hash) {
 	a.data.CodeHash = codeHash
 	a.code = nil
+	// There is no code to save any more. The code of this hash is in db or empty
+	a.codeIsDirty = false
 }
 
 // Code returns the contract code associated with this account, if any.
